@@ -51,7 +51,7 @@ size_t nondet_size_t(void);
   __CPROVER_requires(__CPROVER_is_fresh(format, sizeof(*format))) \
   __CPROVER_requires(WO_WF(format)) \
   __CPROVER_requires(__CPROVER_is_fresh(dst, WO_SIZE(format))) \
-  __CPROVER_assigns(__CPROVER_object_whole(dst)) \
+  __CPROVER_assigns(__CPROVER_object_upto(dst, WO_SIZE(format))) \
   /* W1 frame: no byte outside [value_offset, value_offset + value_size) changes */ \
   __CPROVER_ensures((g_k < format->_value_offset) ==> \
      ((uint8_t*)__CPROVER_old(dst))[g_k] == __CPROVER_old(((uint8_t*)dst)[g_k < format->_value_offset ? g_k : 0])) \
